@@ -12,7 +12,10 @@
 //! notifying the supervisor's supervisor? That's up to the implementation of the [super::Actor]
 
 use std::collections::HashMap;
+#[cfg(not(feature = "verif_hooks"))]
 use std::sync::Mutex;
+#[cfg(feature = "verif_hooks")]
+use crate::verif::sync::Mutex;
 
 use super::actor_cell::ActorCell;
 use super::messages::SupervisionEvent;
@@ -122,6 +125,35 @@ impl SupervisionTree {
     }
 
     /// Try and retrieve the set supervisor
+    /// verif: plain-data view of this node, taken without scheduling points
+    #[cfg(feature = "verif_hooks")]
+    pub(crate) fn verif_snapshot(&self) -> crate::verif::inspect::TreeSnapshot {
+        let mut locked = false;
+        let supervisor = match self.supervisor.raw().try_lock() {
+            Ok(g) => g.as_ref().map(|c| c.get_id()),
+            Err(_) => {
+                locked = true;
+                None
+            }
+        };
+        let children = match self.children.raw().try_lock() {
+            Ok(g) => g.as_ref().map(|m| {
+                let mut v = m.keys().copied().collect::<Vec<_>>();
+                v.sort();
+                v
+            }),
+            Err(_) => {
+                locked = true;
+                None
+            }
+        };
+        crate::verif::inspect::TreeSnapshot {
+            supervisor,
+            children,
+            locked,
+        }
+    }
+
     pub(crate) fn try_get_supervisor(&self) -> Option<ActorCell> {
         self.supervisor.lock().unwrap().clone()
     }
